@@ -157,3 +157,4 @@ def oracle(line, out, expect):
         if tuple(g[3]) != tuple(e):
             return "fast-path PDU %d: callbacks %s, the server sent rectangles %s" % (i, g[3], list(e))
     return None
+from ties import of as _tie_of; TIE_LAYOUTS, TIE_PINS, TIE_ENUMS = _tie_of("C10")   # static-tie lemmas (coq/Gen/Tie) this property depends on
